@@ -11,7 +11,7 @@ from pathlib import Path
 from .common import VERIF, InfraError
 
 LEAN = VERIF / "lean"
-EXE = LEAN / ".lake" / "build" / "bin" / "cohdl_model"
+BIN = LEAN / ".lake" / "build" / "bin"
 ALLOWED_AXIOMS = {"propext", "Classical.choice", "Quot.sound"}
 FORBIDDEN = re.compile(r"\bsorry\b|\badmit\b|^\s*axiom\s|native_decide|bv_decide|implemented_by|\bunsafe\s|maxHeartbeats\s+0\b", re.M)
 
@@ -28,14 +28,14 @@ def _strip_comments(text):
 def source_hash():
     h = hashlib.sha256()
     for p in _sources():
-        if p.name == "Audit.lean":
+        if p.name.startswith("Audit"):
             continue
         h.update(str(p.relative_to(LEAN)).encode())
         h.update(p.read_bytes())
     return h.hexdigest()
 
 
-def build(targets=("CohdlVerif", "cohdl_model"), timeout=3000):
+def build(targets=("CohdlVerif",), timeout=3000):
     """lake build; returns (ok, output)"""
     t0 = time.time()
     p = subprocess.run(["lake", "build", *targets], cwd=LEAN, capture_output=True, text=True, timeout=timeout)
@@ -52,10 +52,11 @@ def prop_theorems():
     return out
 
 
-def audit():
+def audit(only=None):
     """grep for forbidden constructs and #print axioms of every property theorem.
-    Cached by source hash in .lake/audit.json.  Returns {theorem: [axioms]}"""
-    cache = LEAN / ".lake" / "audit.json"
+    Cached by source hash in .lake/audit.json.  Returns {theorem: [axioms]}.
+    only=Cxx (development mode, env COHDL_VERIF_ONLY=1): audit just that property's theorems."""
+    cache = LEAN / ".lake" / (f"audit_{only}.json" if only else "audit.json")
     h = source_hash()
     if cache.exists():
         try:
@@ -65,18 +66,23 @@ def audit():
         except Exception:
             pass
     for p in _sources():
-        if p.name == "Audit.lean":
+        if p.name.startswith("Audit"):
             continue
         m = FORBIDDEN.search(_strip_comments(p.read_text()))
         if m:
             raise InfraError(f"forbidden construct {m.group(0)!r} in {p}")
     thms = prop_theorems()
+    if only:
+        thms = {only: thms.get(only, [])}
     lines = [f"import CohdlVerif.Props.{k}" for k in thms]
     for k, names in thms.items():
         for n in names:
             lines.append(f"#print axioms {n}")
-    (LEAN / "CohdlVerif" / "Audit.lean").write_text("\n".join(lines) + "\n")
-    p = subprocess.run(["lake", "env", "lean", "CohdlVerif/Audit.lean"], cwd=LEAN, capture_output=True, text=True, timeout=1800)
+    afile = LEAN / "CohdlVerif" / (f"Audit_{only}.lean" if only else "Audit.lean")
+    afile.write_text("\n".join(lines) + "\n")
+    p = subprocess.run(["lake", "env", "lean", str(afile.relative_to(LEAN))], cwd=LEAN, capture_output=True, text=True, timeout=1800)
+    if only:
+        afile.unlink()
     if p.returncode != 0:
         raise InfraError("audit failed:\n" + (p.stdout + p.stderr)[-3000:])
     axioms = {}
@@ -95,11 +101,16 @@ def audit():
     return axioms
 
 
-def ensure_built():
-    ok, out = build()
+def ensure_built(prop=None):
+    """normal mode: re-check the whole library (every Props module) + this property's driver.
+    development mode (COHDL_VERIF_ONLY=1): only this property's Props module and driver, so that a
+    half-edited file of another property does not block the run."""
+    only = prop if (prop and os.environ.get("COHDL_VERIF_ONLY")) else None
+    targets = [f"CohdlVerif.Props.{prop}" if only else "CohdlVerif"] + ([f"model_{prop.lower()}"] if prop else [])
+    ok, out = build(tuple(targets))
     if not ok:
         raise InfraError("lake build failed:\n" + out)
-    return audit()
+    return audit(only)
 
 
 def theorems_for(prop, axioms):
@@ -107,14 +118,20 @@ def theorems_for(prop, axioms):
     return [{"name": n, "ok": True, "axioms": axioms.get(n, [])} for n in names]
 
 
-def query(lines, timeout=3000):
-    """send request lines to the compiled model driver, return the answer lines"""
+def query(prop, lines, timeout=3000):
+    """send request lines to the compiled model driver of property `prop` (lean/Drivers/Cxx.lean),
+    return the answer lines (exactly one per request)"""
+    lines = list(lines)
     if not lines:
         return []
-    if not EXE.exists():
-        raise InfraError("model driver not built")
+    exe = BIN / f"model_{prop.lower()}"
+    if not exe.exists():
+        raise InfraError(f"model driver {exe} not built")
+    for l in lines:
+        if "\n" in l:
+            raise InfraError("request contains a newline")
     data = "\n".join(lines) + "\n"
-    p = subprocess.run([str(EXE)], input=data, capture_output=True, text=True, timeout=timeout)
+    p = subprocess.run([str(exe)], input=data, capture_output=True, text=True, timeout=timeout)
     if p.returncode != 0:
         raise InfraError("model driver failed: " + p.stderr[-2000:])
     out = p.stdout.split("\n")
